@@ -29,10 +29,18 @@ def analyse(prop: str, repo_root: str, tier: str):
     schema = Schema()
     typer = Typer(repo, schema)
     ctx = Ctx(prop, repo, typer, schema, tier, dict(mod.RULES))
-    mod.run(ctx)
+    aborted = None
+    try:
+        mod.run(ctx)
+    except AnalysisError as e:
+        # an anchor or idiom the rules need was not found.  If violations were already found they are the report (the same
+        # edit usually explains both); otherwise the run cannot give a verdict
+        if not ctx.findings:
+            raise
+        aborted = str(e)
     # instance floors: a rule that examined too few instances would pass vacuously. A floor shortfall is an
     # ANALYSIS-ERROR unless the run already found violations (then those are the report).
-    ctx.floor_errors = []
+    ctx.floor_errors = [f"analysis stopped early: {aborted}"] if aborted else []
     floors = getattr(mod, "FLOORS", {})
     for rule, minimum in floors.items():
         try:
